@@ -125,7 +125,8 @@ def specText (bs : Bytes) : String :=
 * `sanitize <hex>`
 * `oj <opts> <limits> <tree>`: text of `oj.JSON`, then the chunk list of `oj.Write` for every limit
 * `pretty <popts> <limits> <tree>`: the same for `pretty.JSON` / `pretty.WriteJSON`
-* `norm <opts> <tree>`: the tree the text has to denote -/
+* `norm <opts> <tree>`: the tree the text has to denote
+* `normp <popts> <tree>`: the tree `pretty` without alignment is proved to denote (`normP`) -/
 def handle : List String → String
   | ["spec", hx] =>
     match ofHex hx with
@@ -159,6 +160,10 @@ def handle : List String → String
   | ["norm", os, tr] =>
     match parseOpts os, parseTree tr with
     | some o, some v => (norm o id v).render
+    | _, _ => "bad-op"
+  | ["normp", os, tr] =>
+    match parsePOpts os, parseTree tr with
+    | some o, some v => (normP o.omitNil o.omitEmpty id v).render
     | _, _ => "bad-op"
   | _ => "bad-op"
 
